@@ -9,8 +9,8 @@ FLOOR = 13      # 70% of the 19 obligation instances derived on the tree the rul
 EXPLANATION = ('Counts are runtime arithmetic and are not decided. Decided: dereferences (and references) of counted keys are not mirrored as removals in '
                'the commit overlay; every Set is mirrored under the current commit id; with ref_counted on, a Set on an existing key increments and returns '
                'before any replace/remove, and a Dereference removes only through write_dec_ref.')
-EXPLANATION += ' Added: change lists are append-only; value iteration is bounded by the fill mark; the writer-side search verifies the stored key; the handle keeps the stored salt.'
-ASSUMPTIONS = ['the count arithmetic in ValueTable::change_ref and the table chain logic are not decided', 'unwind edges ignored']
+EXPLANATION += ' Added: change lists are append-only; value iteration is bounded by the fill mark; the writer-side search verifies the stored key; the handle keeps the stored salt. The counter protocol of change_ref: kept only after the new counter was written and logged, removed only for a tombstone or at zero, written where it was read, +1 / -1 from the two callers.'
+ASSUMPTIONS = ['the count arithmetic in ValueTable::change_ref (saturation at LOCKED_REF, the subtraction itself) and the table chain logic are not decided; the protocol around the arithmetic is (rules 7a-7e)', 'unwind edges ignored']
 TRUSTED = ['rustc MIR construction (nightly)', 'pdb-facts driver', 'rule engine /verif/rules', 'anchor tables in props/C07.py']
 
 
@@ -122,3 +122,111 @@ def run(ctx):
     # 5. a counted operation lands on the key it names
     shared.index_hit_verified_against_key(ctx, '5')
     shared.one_salt_per_handle(ctx, '6')
+    counter_protocol(ctx, '7')
+
+
+def counter_protocol(ctx, p):
+    """The counter of a stored value is read, changed and written back by ValueTable::change_ref. The arithmetic (saturation at
+    LOCKED_REF) is a value property and is not decided; the protocol around it is in the shape of the code:
+    a  `Ok(true)` ("still referenced, entry kept") is returned only after the new counter was written into the entry buffer and the
+       buffer was logged (write_rc, then LogWriter::insert_value): a path that returns true without them forgets a reference;
+    b  `Ok(false)` ("gone: remove the entry") is returned only for a tombstone or on the zero edge of a comparison of the new counter
+       with 0: any other false removes a value that is still referenced;
+    c  the number written back derives from the number read (read_rc) and from `delta`;
+    d  it is written where it was read: the buffer offset is restored (set_offset) from an offset taken BEFORE read_rc;
+    e  write_inc_ref / write_dec_ref ask for +1 / -1."""
+    F = ctx.F
+    cr = ctx.body('table::ValueTable::change_ref')
+    if not cr:
+        return
+    E = r'^table::Entry::<.*>::'
+    rd = lib.sites_reaching(cr, ['re:' + E + 'read_rc$'])
+    wr = lib.sites_reaching(cr, ['re:' + E + 'write_rc$'])
+    so = lib.sites_reaching(cr, ['re:' + E + 'set_offset$'])
+    off = cr.call_sites('re:' + E + 'offset$')
+    lg = lib.sites_reaching(cr, ['re:^log::LogWriter::<.*>::insert_value$'])
+    ctx.ob(p + '0 counter-anchor', 'anchor', cr.path, 'change_ref reads the counter, restores the offset, writes the counter and logs the entry',
+           len(rd) == 1 and len(wr) >= 1 and len(so) >= 1 and len(lg) >= 1 and len(off) >= 1, 'read_rc %s write_rc %s set_offset %s offset %s insert_value %s' % (rd, wr, so, off, lg))
+    if not (len(rd) == 1 and wr and so and lg and off):
+        return
+    # result blocks: `_0 = Ok(const b)`
+    res = {True: [], False: []}
+    for bi in cr.normal_blocks():
+        for st in cr.blocks[bi]['s']:
+            if st['k'] == 'assign' and st['p'] == [0] and st['r']['k'] == 'agg' and st['r']['ak'].endswith('Result::Ok') and st['r']['a']:
+                c = lib.const_of(cr, st['r']['a'][0])
+                if c in (0, 1):
+                    res[bool(c)].append(bi)
+    ctx.ob(p + '1 result-anchor', 'anchor', cr.path, 'change_ref returns constant Ok(true) / Ok(false) results', len(res[True]) >= 1 and len(res[False]) >= 1, 'true at %s, false at %s' % (res[True], res[False]))
+    # a: every path from entry to an Ok(true) block passes write_rc and then insert_value
+    for n, t in enumerate(res[True]):
+        w1 = cr.find_path([0], {t}, removed=set(wr))
+        ok = w1 is None
+        w2 = None
+        if ok:
+            for w_ in wr:
+                w2 = w2 or cr.find_path(list(cr.succ(w_)), {t}, removed=set(lg))
+            ok = w2 is None
+        if not ok:
+            # a counter that is pinned at LOCKED_REF never changes: returning "kept" for it without rewriting the entry is the same behaviour
+            LOCKED = (F.consts.get('table::LOCKED_REF') or {}).get('i')
+            for (sw, yes, no) in cr.control_deps(t):
+                pol = lib.eq_polarity(cr, sw)
+                if pol and LOCKED is not None:
+                    eq_t, ne_t, ops = pol
+                    if LOCKED in [lib.const_of(cr, o) for o in ops] and eq_t in yes and ne_t in no and \
+                       any(any(re.search(r'read_rc$', c) for c in backward_slice(cr, [op_place(o)]).calls) for o in ops if op_place(o) is not None):
+                        ok = True
+        ctx.ob(p + 'a kept-only-after-counter-logged #%d' % n, 'K1-must-pass', cr.path, 'Ok(true) is returned only after write_rc and a following LogWriter::insert_value (or for a counter equal to LOCKED_REF, which never changes)', ok,
+               '' if ok else 'path to Ok(true) that skips them: ' + lib.short_path(cr, w1 or w2), cr.loc(t))
+    # b: Ok(false) only for a tombstone or on the zero edge of `counter == 0`
+    for n, f in enumerate(res[False]):
+        why = None
+        for (sw, yes, no) in cr.control_deps(f):
+            t = cr.term(sw)
+            d = lib.switch_def(cr, sw)
+            if d and d[2] == 'call' and call_matches(d[3], ['re:' + E + 'is_tombstone$']) and t['k'] == 'switch' and t['ts'][-1] in yes:
+                why = 'tombstone'
+            pol = lib.eq_polarity(cr, sw)
+            if pol:
+                eq_t, ne_t, ops = pol
+                if 0 in [lib.const_of(cr, o) for o in ops] and eq_t in yes and ne_t in no:
+                    sls = [backward_slice(cr, [op_place(o)]) for o in ops if op_place(o) is not None]
+                    if any(any(re.search(r'read_rc$', c) for c in sl.calls) for sl in sls):
+                        why = why or 'counter == 0'
+        ctx.ob(p + 'b removed-only-at-zero #%d' % n, 'K3-guard', cr.path, 'Ok(false) is returned only for a tombstone or on the equal edge of (new counter == 0)', why is not None, str(why), cr.loc(f))
+    # c: the number written derives from the number read and from delta
+    dl = [l for l, nm in cr.names.items() if nm == 'delta' and 1 <= l <= cr.argc]
+    for n, w_ in enumerate(wr):
+        a = cr.term(w_)['a']
+        sl = backward_slice(cr, [op_place(x) for x in a[1:] if op_place(x) is not None]) if len(a) > 1 else None
+        ok = bool(sl) and any(re.search(r'read_rc$', c) for c in sl.calls) and bool(dl) and (set(dl) & sl.params)
+        ctx.ob(p + 'c written-counter-derives-from-read-counter-and-delta #%d' % n, 'K9-provenance', cr.path, 'the argument of write_rc is computed from the result of read_rc and the delta parameter', ok, '', cr.loc(w_))
+    # d: the offset restored before write_rc was taken before read_rc
+    for n, w_ in enumerate(wr):
+        doms = [s for s in so if cr.dominates(s, w_)]
+        ok = False
+        for s in doms:
+            a = cr.term(s)['a']
+            r = lib.root_local(cr, a[1]) if len(a) > 1 else None
+            srcs = [o for o in off if cr.term(o).get('d') and cr.term(o)['d'][0] == r]
+            if srcs and all(cr.dominates(o, rd[0]) for o in srcs) and rd[0] in cr.reaches(s) is False:
+                pass
+            if srcs and all(cr.dominates(o, rd[0]) for o in srcs) and cr.dominates(rd[0], s):
+                ok = True
+        ctx.ob(p + 'd counter-written-where-it-was-read #%d' % n, 'K9-provenance', cr.path,
+               'write_rc is dominated by a set_offset whose argument is the buffer offset taken before read_rc (reading moves the offset past the counter)', ok, 'set_offset sites dominating: %s' % doms, cr.loc(w_))
+    # e: callers ask for +1 / -1
+    for fn, want in (('table::ValueTable::write_inc_ref', 1), ('table::ValueTable::write_dec_ref', -1)):
+        b = ctx.body(fn)
+        if not b:
+            continue
+        cs = b.call_sites('table::ValueTable::change_ref')
+        vals = []
+        for s in cs:
+            a = b.term(s)['a']
+            c = lib.const_of(b, a[2]) if len(a) > 2 else None
+            if c is not None and c >= (1 << 31):
+                c -= (1 << 32)
+            vals.append(c)
+        ctx.ob(p + 'e delta-sign %s' % fn, 'K8-const', fn, '%s calls change_ref with delta %d' % (fn.split('::')[-1], want), len(cs) >= 1 and all(v == want for v in vals), 'deltas %s' % vals)
